@@ -55,6 +55,12 @@ RULE = ("DETERMINISTIC campaign (constant seed %d; VERIF_SEED is ignored because
         "particular False when c19.refuted: not single-peaked or not single-crossing) and the witness of a True "
         "answer must pass c19.check; c19.orders cases run 3..6 storage orders of one profile and demand the "
         "verdict of c19.decide for each. "
+        "c19.history cases (round-5 lessons): ONE instance object is asked 2..5 times by is_one_euclidean, "
+        "is_single_crossing, is_single_crossing_conflict_sets and is_single_peaked in several orders; every answer is "
+        "judged against the model of the ORIGINAL profile, the semantic content of the object is compared before and "
+        "after every call, every returned map / sequence / axis is poisoned in place, other profiles (other m, "
+        "rejected, single order, raising) are run first in the same process, and the instance is built with the orders "
+        "list decoupled from the multiplicity keys, alternatives_name unsorted, numpy.int64 ids, maintenance calls. "
         "non-trivial = at least 3 alternatives and at least 2 distinct orders" % CAMPAIGN_SEED)
 EXHAUSTIVE = {
     "quick": "all 63 non-empty sets of strict orders over 3 alternatives (x sorted / reversed / shuffled storage) and all "
@@ -471,6 +477,42 @@ def generate(tier, seed):
         out.append(mk_profile(list(range(1, m + 1)), sh, gen=tag, storage=0))
         out.append(mk_profile(list(range(1, m + 1)), sh[::-1], gen=tag, storage=1))
 
+    # ---- histories on ONE instance object (purity, aliasing of results, object lifetime, decoupled storage orders,
+    #      numpy ids, maintenance calls): see notes/round5_lessons.md
+    rng = random.Random(CAMPAIGN_SEED + 14)
+    pres = [[], [[[1, 2, 3], [[1, 2, 3], [2, 3, 1], [3, 1, 2]]]],                 # a rejected profile, other m
+            [[[1, 2, 3, 4, 5], [[2, 1, 3, 4, 5]]]],                                  # single order, overlapping ids
+            [[[1, 2], []]],                                                          # no ballot at all: raises
+            [[[1, 2, 3, 4], [[1, 2, 3, 4], [1, 2, 4, 3]]], [[1, 2, 3], [[3, 2, 1], [2, 3, 1]]]]]
+    for i in range(420 if quick else 4200):
+        m = rng.randint(2, 6)
+        alts = list(range(1, m + 1))
+        n = rng.randint(1, 6)
+        src = i % 4
+        if src == 0:
+            prof = [r for r, _ in planted(rng, m, n)[1]]
+        elif src == 1:
+            prof = swap_walk(rng, alts, n)
+        elif src == 2:
+            res = runs_family(rng) if i % 8 == 2 else None
+            if res is not None and len(res[0]) <= 6:
+                alts = sorted(res[0])
+                prof = [r for r, _ in res[1]]
+            else:
+                prof = [r for r, _ in planted(rng, m, min(n, 3))[1]]
+        else:
+            prof = []
+            for _ in range(n):
+                r = alts[:]
+                rng.shuffle(r)
+                if r not in prof:
+                    prof.append(r)
+        rng.shuffle(prof)
+        variant = [0, 0, 1, 2, 4, 8, 3, 15, 9, 6][i % 10]
+        script = SCRIPTS[i % len(SCRIPTS)]
+        out.append(case("c19.history", [alts, prof, mults(rng, len(prof), i % 3 == 0), variant, script, pres[i % len(pres)]],
+                        m=len(alts), n=len(prof), gen="history"))
+
     # ---- storage-order invariance of the verdict (one case = several storage orders of one profile)
     rng = random.Random(CAMPAIGN_SEED + 7)
     for i in range(120 if quick else 1200):
@@ -524,7 +566,7 @@ def _call(alts, profile, mult):
     from preflibtools.properties.subdomains.ordinal.euclidean import is_one_euclidean
     inst = ordinal_instance([(strict(r), mu) for r, mu in zip(profile, mult)], data_type="soc", alts=alts)
     try:
-        res = is_one_euclidean(inst)
+        res = _lp_guard(is_one_euclidean, inst)
     except Exception as e:  # classified by the judge; an exception is a failure for every in-domain input
         return [1, exc_code(e), proto.text(type(e).__name__ + ": " + str(e)[:100])]
     if not (isinstance(res, tuple) and len(res) == 2):
@@ -559,8 +601,160 @@ def _call(alts, profile, mult):
     return [0, 1, voters, alternatives, [stray, nonfinite]]
 
 
+# ------------------------------------------------------------------------------------------------ history cases
+# (notes/round5_lessons.md) one instance object asked several times by the whole family of recognisers; every answer
+# is judged against the model of the ORIGINAL profile; the semantic content of the object is compared before / after
+# every call (common.snapshot); every returned object is poisoned in place; other profiles are run first in the
+# same worker call; the instance is built with decoupled storage orders / numpy ids / maintenance calls.
+H_EUCL, H_SC, H_CONF, H_SP = 0, 1, 2, 3
+V_ORDERS_DECOUPLED, V_ALTS_UNSORTED, V_NUMPY, V_MAINT = 1, 2, 4, 8
+SCRIPTS = [[0, 0], [1, 0, 1, 0], [2, 0, 2, 0], [3, 0, 3, 0], [0, 2, 1, 3, 0], [2, 2, 1, 0, 0], [3, 1, 2, 0]]
+
+
+_LP_CALLS = [0]
+
+
+def _lp_guard(fn, *a):
+    """python-mip models are freed by the cyclic GC; if that happens while cffi is inside a later solver call the
+    process can deadlock (see c12._ilp): the collector is off during the call (it runs between calls, where freeing a
+    model is harmless) and a full collection is forced every 64th call."""
+    import gc
+    _LP_CALLS[0] += 1
+    if _LP_CALLS[0] % 64 == 0:
+        gc.collect()
+    gc.disable()
+    try:
+        return fn(*a)
+    finally:
+        gc.enable()
+
+
+def _build(alts, profile, mult, variant):
+    ident = int
+    if variant & V_NUMPY:
+        import numpy
+        ident = numpy.int64
+    names = list(alts)
+    if variant & V_ALTS_UNSORTED and len(names) > 1:
+        names = names[1::2] + names[0::2][::-1]          # discovery order, not ascending
+    inst = ordinal_instance([(strict([ident(a) for a in r]), mu) for r, mu in zip(profile, mult)], data_type="soc",
+                            alts=[ident(a) for a in names])
+    if variant & V_ORDERS_DECOUPLED and len(inst.orders) > 1:
+        inst.orders.reverse()                             # list order <> dict key order
+        first = next(iter(inst.multiplicity))
+        inst.multiplicity[first] = inst.multiplicity.pop(first)
+    if variant & V_MAINT:
+        inst.recompute_cardinality_param()
+        inst.flatten_strict()
+        inst.full_profile()
+    return inst
+
+
+def _convert(res, order_used, alts):
+    """(bool, dict) of is_one_euclidean -> the shape of _call; keys may be numpy integers"""
+    if not (isinstance(res, tuple) and len(res) == 2):
+        return {"crash": "is_one_euclidean returned %r" % (res,)}
+    verdict, y = res
+    if not isinstance(verdict, bool):
+        return {"crash": "is_one_euclidean verdict is not a bool: %r" % (verdict,)}
+    if not verdict:
+        return [0, 0, [], [], [0, 0]]
+    if not isinstance(y, dict):
+        return {"crash": "is_one_euclidean answered True without a position map: %r" % (y,)}
+    n = len(order_used)
+    yy, stray, nonfinite = {}, 0, 0
+    for k, v in y.items():
+        if hasattr(k, "__index__") and not isinstance(k, bool):
+            yy[int(k)] = v
+        else:
+            stray += 1
+    voters, alternatives = [], []
+    for i in range(n):
+        f = _frac(yy[i]) if i in yy else None
+        if i in yy and f is None:
+            nonfinite += 1
+        voters.append(f if f is not None else [])
+    aset = set(int(a) for a in alts)
+    for k in sorted(yy):
+        if 0 <= k < n:
+            continue
+        c = k - n + 1
+        if c in aset:
+            f = _frac(yy[k])
+            if f is None:
+                nonfinite += 1
+            else:
+                alternatives.append([c, f[0], f[1]])
+        else:
+            stray += 1
+    return [0, 1, voters, alternatives, [stray, nonfinite]]
+
+
+def _poison(obj):
+    """change a returned object in place: a later answer must not depend on it"""
+    try:
+        if isinstance(obj, dict):
+            obj.clear()
+            obj[0] = 1e18
+            obj["poison"] = -1e18
+        elif isinstance(obj, list):
+            obj.reverse()
+            obj.append(("poison",))
+            del obj[:max(0, len(obj) - 1)]
+        elif isinstance(obj, set):
+            obj.clear()
+            obj.add("poison")
+    except Exception:
+        pass
+
+
+def _history(c):
+    from preflibtools.properties.subdomains.ordinal.euclidean import is_one_euclidean
+    from preflibtools.properties.subdomains.ordinal import singlecrossing as SCm
+    from preflibtools.properties.subdomains.ordinal.singlepeaked.singlepeakedness import is_single_peaked
+    from .common import snapshot, snap_diff
+    alts, profile, mult, variant, script, pre = c["payload"]
+    # other profiles first, in the same process (their answers are not judged; they may raise)
+    for palts, pprof in pre:
+        try:
+            _lp_guard(is_one_euclidean, ordinal_instance([(strict(r), 1) for r in pprof], data_type="soc", alts=palts))
+        except Exception:
+            pass
+    inst = _build(alts, profile, mult, variant)
+    out = []
+    for step in script:
+        before = snapshot(inst)
+        try:
+            if step == H_EUCL:
+                used = [[int(a) for a in o] for o, _ in inst.flatten_strict()]
+                res = _lp_guard(is_one_euclidean, inst)
+                rec = [H_EUCL, used, _convert(res, used, alts)]
+                if isinstance(rec[2], dict):
+                    return rec[2]
+                if isinstance(res[1], dict):
+                    _poison(res[1])
+            else:
+                fn = {H_SC: SCm.is_single_crossing, H_CONF: SCm.is_single_crossing_conflict_sets, H_SP: is_single_peaked}[step]
+                res = fn(inst)
+                verdict = res[0] if isinstance(res, tuple) else res
+                if not isinstance(verdict, bool):
+                    return {"crash": "%s returned %r" % (fn.__name__, res)}
+                rec = [step, int(verdict)]
+                if isinstance(res, tuple) and len(res) > 1:
+                    _poison(res[1])
+        except Exception as e:
+            rec = [step, [1, exc_code(e), proto.text(type(e).__name__ + ": " + str(e)[:100])]] if step != H_EUCL else \
+                  [H_EUCL, [], [1, exc_code(e), proto.text(type(e).__name__ + ": " + str(e)[:100])]]
+        d = snap_diff(before, snapshot(inst))
+        rec.append(proto.text(d[:200]) if d else [])
+        out.append(rec)
+    return out
+
+
 def impl(c):
     pl = c["payload"]
+    if c["op"] == "c19.history":
+        return _history(c)
     if c["op"] == "c19.orders":
         alts, prof, orders = pl
         return [_call(alts, [prof[i] for i in o], [1] * len(prof)) for o in orders]
@@ -603,6 +797,16 @@ def _layout(c, r):
             lay.append(("algo", ("c19.algo", [pl[0], pl[1]])))
         if _is_true(r):
             lay.append(("wit", _check_req(pl[0], pl[1], r)))
+    elif op == "c19.history":
+        alts, prof = pl[0], pl[1]
+        lay.append(("decide", ("c19.decide", [alts, prof])))
+        lay.append(("algo", ("c19.algo", [alts, prof])))
+        lay.append(("sc", ("c04.cdecide", [alts, prof])))
+        lay.append(("sp", ("c03.decide", [alts, prof])))
+        if isinstance(r, list):
+            for k, rec in enumerate(r):
+                if rec[0] == H_EUCL and _is_true(rec[2]):
+                    lay.append(("wit%d" % k, _check_req(alts, rec[1], rec[2])))
     else:  # c19.orders
         alts, prof, orders = pl
         lay.append(("refuted", ("c19.refuted", [alts, prof])))
@@ -665,12 +869,51 @@ def _model_inconsistent(M):
     return None
 
 
+K_PUR = "purity"
+STEP_NAME = {H_EUCL: "is_one_euclidean", H_SC: "is_single_crossing", H_CONF: "is_single_crossing_conflict_sets",
+             H_SP: "is_single_peaked"}
+
+
+def _judge_history(c, r, M):
+    """every answer of the history is judged against the model of the ORIGINAL profile"""
+    if isinstance(r, dict):
+        return {"kind": K_EXC, "reason": "crash: %r" % (r,)}
+    pl = c["payload"]
+    original = sorted(pl[1])
+    for k, rec in enumerate(r):
+        where = "step %d (%s) of the history %r on one instance object" % (k, STEP_NAME[rec[0]], [STEP_NAME[x] for x in pl[4]])
+        if rec[-1]:
+            return {"kind": K_PUR, "reason": where + ": the call changed the instance it was asked about: "
+                    + proto.untext(rec[-1])}
+        if rec[0] == H_EUCL:
+            res = rec[2]
+            if res[0] == 1:
+                return {"kind": K_EXC, "reason": where + ": raised " + _exc_text(res)}
+            if sorted(rec[1]) != original:
+                return {"kind": K_PUR, "reason": where + ": the instance no longer holds the original profile: %r" % (rec[1],)}
+            if res[1] != M["decide"]:
+                return {"kind": K_VER, "reason": where + ": answers %s, the exact reference (eucl_decide_correct) says %s "
+                        "for the original profile" % (bool(res[1]), bool(M["decide"]))}
+            if res[1] == 1 and M.get("wit%d" % k) != 1:
+                return {"kind": K_WIT, "reason": where + ": " + _witness_reason(res)}
+        else:
+            if isinstance(rec[1], list):
+                return {"kind": K_EXC, "reason": where + ": raised " + _exc_text(rec[1])}
+            expected = M["sp"] if rec[0] == H_SP else M["sc"]
+            if rec[1] != expected:
+                return {"kind": K_VER, "reason": where + ": answers %s, the proved reference says %s for the original "
+                        "profile" % (bool(rec[1]), bool(expected))}
+    return None
+
+
 def judge(c, r, mres):
     op = c["op"]
     M = _named(c, r, mres)
     bad = _model_inconsistent(M)
     if bad:
         return {"kind": "broken-correspondence", "reason": bad}
+    if op == "c19.history":
+        return _judge_history(c, r, M)
     if op == "c19.orders":
         if any(isinstance(ri, dict) for ri in r):
             return {"kind": K_EXC, "reason": "crash: %r" % ([ri for ri in r if isinstance(ri, dict)][:1],)}
@@ -762,6 +1005,12 @@ def stats(c, r, mres):
         f = judge(c, r, mres)
     except Exception:
         f = {"kind": "judge-error"}
+    if c["op"] == "c19.history":
+        lab.append("history variant %d" % pl[3])
+        lab.append("history script %s" % "".join(str(x) for x in pl[4]))
+        lab.append("history preceded by %d other profile(s)" % len(pl[5]))
+        lab.append("history: " + ("ok" if not f else "FAIL " + str(f.get("kind"))))
+        return lab
     if c["op"] == "c19.orders":
         kind = "orders/" + ("refuted" if M["refuted"] == 1 else ("euclidean" if M["decide"] == 1 else "sp+sc-not-euclidean"))
         lab.append(kind + (": ok" if not f else ": FAIL " + classify(c, r, mres, f)))
@@ -796,6 +1045,12 @@ def stats(c, r, mres):
 
 def describe(c):
     pl = c["payload"]
+    if c["op"] == "c19.history":
+        return {"alternatives": pl[0], "orders (storage order)": pl[1], "multiplicities": pl[2],
+                "instance variant (1 orders list reversed w.r.t. multiplicity keys, 2 alternatives_name unsorted, "
+                "4 numpy.int64 ids, 8 maintenance calls first)": pl[3],
+                "calls on the one instance object": [STEP_NAME[x] for x in pl[4]],
+                "profiles run before in the same process": pl[5]}
     if c["op"] == "c19.orders":
         return {"alternatives": pl[0], "orders": pl[1], "storage orders (index lists)": pl[2]}
     d = {"alternatives": pl[0], "orders (storage order)": pl[1], "multiplicities": pl[2]}
